@@ -277,6 +277,17 @@ fn hand_cases() -> Vec<Case> {
         Case { target: "kotlin".into(), file: vec![], cli: vec![raw("kotlin.use_finalizers_not_cleaners", "true", V::B(true))], attrs: vec![raw("unsafe_references_in_callbacks", "false", V::B(false))] },
         Case { target: "py-nanobind".into(), file: vec![], cli: vec![], attrs: vec![raw("lib_name", "shared", V::S("shared".into())), raw("nanobind.lib_name", "somelib", V::S("somelib".into()))] },
         Case { target: "nanobind".into(), file: vec![], cli: vec![], attrs: vec![raw("lib_name", "shared", V::S("shared".into())), raw("nanobind.lib_name", "somelib", V::S("somelib".into()))] },
+        // demo_gen: each import-path key from each single source (whether the JS bindings are written next to the
+        // demo depends on them), and js.abi from each single source and against each other
+        Case { target: "demo_gen".into(), file: vec![], cli: vec![], attrs: vec![raw("demo_gen.module_name", "\"mymod\"", V::S("mymod".into()))] },
+        Case { target: "demo_gen".into(), file: vec![], cli: vec![raw("demo_gen.module_name", "mymod", V::S("mymod".into()))], attrs: vec![] },
+        Case { target: "demo_gen".into(), file: vec![FileEntry { table: Some("demo_gen".into()), key: "module-name".into(), val: V::S("mymod".into()) }], cli: vec![], attrs: vec![] },
+        Case { target: "demo_gen".into(), file: vec![], cli: vec![], attrs: vec![raw("demo_gen.relative_js_path", "\"../js\"", V::S("../js".into()))] },
+        Case { target: "demo_gen".into(), file: vec![FileEntry { table: Some("demo-gen".into()), key: "relative-js-path".into(), val: V::S("../js".into()) }], cli: vec![], attrs: vec![] },
+        Case { target: "demo_gen".into(), file: vec![], cli: vec![], attrs: vec![] },
+        Case { target: "js".into(), file: vec![FileEntry { table: Some("js".into()), key: "abi".into(), val: V::S("spec".into()) }], cli: vec![raw("js.abi", "legacy", V::S("legacy".into()))], attrs: vec![] },
+        Case { target: "js".into(), file: vec![], cli: vec![raw("js.abi", "spec", V::S("spec".into()))], attrs: vec![raw("js.abi", "\"legacy\"", V::S("legacy".into()))] },
+        Case { target: "js".into(), file: vec![FileEntry { table: Some("js".into()), key: "abi".into(), val: V::S("legacy".into()) }], cli: vec![], attrs: vec![raw("js.abi", "\"spec\"", V::S("spec".into()))] },
     ]
 }
 
@@ -344,6 +355,7 @@ pub fn main(args: &[String]) {
     let mut rng = Rng::new(a.seed);
     let dir = util::workdir("C17");
     let mut cases = hand_cases();
+    let n_hand = cases.len();
     rep.count_n("hand_cases", cases.len());
     let n = if a.n > 0 { a.n } else if thorough { 20000 } else { 1500 };
     if let Some(p) = util::arg_value(&a.rest, "--replay") {
@@ -364,7 +376,7 @@ pub fn main(args: &[String]) {
     };
     let mut out_budget = if thorough { 400 } else { 40 };
     let mut tie_budget = if thorough { 1200 } else { 120 };
-    for ((c, l), m) in cases.iter().zip(lines.iter()).zip(model.iter()) {
+    for (case_index, ((c, l), m)) in cases.iter().zip(lines.iter()).zip(model.iter()).enumerate() {
         rep.case(l);
         rep.count(&format!("target={}", c.target));
         rep.count(&format!("sources={}{}{}", if c.file.is_empty() { "-" } else { "F" }, if c.cli.is_empty() { "-" } else { "C" }, if c.attrs.is_empty() { "-" } else { "A" }));
@@ -397,7 +409,7 @@ pub fn main(args: &[String]) {
                 output_oracle(c, &doc, &mut rep);
             }
             // the real command line (main.rs + gen) against the in-process pipeline the other checks look through
-            if tie_budget > 0 && (tie_budget % 3 != 0 || c.target == "kotlin" || c.target.contains("nanobind")) {
+            if tie_budget > 0 && (case_index < n_hand || tie_budget % 3 != 0 || c.target == "kotlin" || c.target.contains("nanobind")) {
                 tie_budget -= 1;
                 rep.oracle_runs += 1;
                 rep.count("cli-tie");
